@@ -292,6 +292,19 @@ func x2Configs(prop, tier string) []*X2Config {
 		d10.Delay = dly
 		d20 := base
 		d20.Delay = 2 * dly
+		// allow_failure of a task flipped (both directions) while a job with two independent tasks runs: the failure handling
+		// of that job follows the definition it was accepted under
+		{
+			pa := PipeCfg{Conc: 1, QL: -1, Graph: graphPar}
+			pb := pa
+			pb.Allow = map[string]bool{"a": true}
+			for _, v := range []struct {
+				n    string
+				x, y PipeCfg
+			}{{"allow-set-parallel-tasks", pa, pb}, {"allow-cleared-parallel-tasks", pb, pa}} {
+				res = append(res, &X2Config{Name: "C16/" + v.n, Cfgs: []PipeCfg{v.x, v.y}, Depth: depth(5, 6), FailOK: true, Reload: true, Symmetry: true, Drain: true, Props: props("C16", "C02", "C08")})
+			}
+		}
 		// the queue is switched off (queue_limit 0) while jobs wait - also jobs whose delay timer is pending, after the delay
 		// was dropped together with the queue (a delay needs a queue): the jobs accepted before must still run
 		qz := base
@@ -366,6 +379,14 @@ func x2Configs(prop, tier string) []*X2Config {
 		without := mkDefs(map[string]PipeCfg{"z": {Conc: 1, QL: -1, Graph: graphOne}})
 		res = append(res, &X2Config{Name: "C10/pipeline-removed-by-reload", DefsOverride: []*definitionPipelinesDef{with, without}, Pipes: []string{"p"},
 			Depth: depth(5, 6), Cancel: true, FailOK: true, Reload: true, Symmetry: false, Restart: true, Props: props()})
+	}
+	if prop == "C08" {
+		// a reload that flips allow_failure of a task while a job with two independent tasks runs
+		pa := PipeCfg{Conc: 1, QL: -1, Graph: graphPar}
+		pb := pa
+		pb.Allow = map[string]bool{"a": true}
+		res = append(res, &X2Config{Name: "C08/reload-sets-allow-failure", Cfgs: []PipeCfg{pa, pb}, Depth: depth(5, 6), FailOK: true, Reload: true, Symmetry: true, Drain: true, Props: props("C08")})
+		res = append(res, &X2Config{Name: "C08/reload-clears-allow-failure", Cfgs: []PipeCfg{pb, pa}, Depth: depth(5, 6), FailOK: true, Reload: true, Symmetry: true, Drain: true, Props: props("C08")})
 	}
 	if prop == "C07" || prop == "C16" {
 		// a reload from append to replace (also with a delay) while several jobs wait: the request accepted afterwards
